@@ -25,6 +25,7 @@ type mkConsPart struct {
 	drainM    bool // ExpectMessagesDrainedOnClose
 	drainE    bool
 	userClose string // close | asyncclose | none: what the application calls on the partition consumer
+	yielders  int    // > 1: that many goroutines call YieldMessage on this partition consumer at once (message i by goroutine i % yielders)
 
 	// observed
 	pc          *mocks.PartitionConsumer
@@ -41,6 +42,7 @@ type mkConsPart struct {
 	closeErr    error
 	hwmMap      int64
 	hwmMapOK    bool
+	hwmEnd      int64 // concurrent yielders: HighWaterMarkOffset() after the last Yield call returned
 }
 
 type mkTP struct {
@@ -124,6 +126,9 @@ func (s *mkConsSpec) shape() (string, bool) {
 			}
 			if p.readM < p.nm || p.readE < p.ne {
 				modes["partial-read"] = true
+			}
+			if p.yielders > 1 {
+				modes[fmt.Sprintf("yielders%d", p.yielders)] = true
 			}
 			closes[p.userClose] = true
 		}
@@ -220,6 +225,13 @@ func mkGenConsumer(rng *rand.Rand) *mkConsSpec {
 			p.drainM = rng.Intn(100) < 35
 			p.drainE = rng.Intn(100) < 35
 			p.userClose = []string{"close", "close", "asyncclose", "none"}[rng.Intn(4)]
+			if !p.preYield && p.nm >= 4 && rng.Intn(100) < 30 {
+				p.yielders = 2 + rng.Intn(4)
+				if rng.Intn(2) == 0 {
+					p.nm = 200 + rng.Intn(800)
+				}
+				p.readM, p.readE = p.nm, p.ne
+			}
 		}
 		p.order = mkYieldOrder(rng, p.nm, p.ne)
 		s.parts = append(s.parts, p)
@@ -262,6 +274,11 @@ func mkFixedConsumer(rng *rand.Rand, i int) *mkConsSpec {
 	case 7:
 		s.consumerFirst = true
 		p.readM, p.readE = 1, 0
+	case 8, 9: // eight goroutines yield on one partition consumer
+		s.buf = []int{0, 256}[i-8]
+		p.preYield, p.yielders = false, 8
+		p.nm, p.ne, p.readM, p.readE = 4000, 2, 4000, 2
+		s.tag = "core-concurrent-yield"
 	}
 	for _, q := range s.parts {
 		q.order = mkYieldOrder(rng, q.nm, q.ne)
@@ -273,6 +290,29 @@ func mkFixedConsumer(rng *rand.Rand, i int) *mkConsSpec {
 // ---------------------------------------------------------------- workload
 
 func (p *mkConsPart) yieldAll(r *mkRun) {
+	if p.yielders > 1 {
+		var wg sync.WaitGroup
+		for k := 0; k < p.yielders; k++ {
+			k := k
+			wg.Add(1)
+			go func() {
+				defer wg.Done()
+				for i := k; i < len(p.msgs); i += p.yielders {
+					p.pc.YieldMessage(p.msgs[i])
+					r.tick()
+				}
+				if k == 0 {
+					for _, e := range p.errs {
+						p.pc.YieldError(e)
+						r.tick()
+					}
+				}
+			}()
+		}
+		wg.Wait()
+		p.hwmEnd = p.pc.HighWaterMarkOffset()
+		return
+	}
 	im, ie := 0, 0
 	for _, isMsg := range p.order {
 		if isMsg {
@@ -494,7 +534,52 @@ func (s *mkConsSpec) judge(r *mkRun) {
 		if len(p.gotM) < p.readM && p.closedEarly == "" {
 			r.viol("consumer-order", "message-lost", fmt.Sprintf("%s: %d messages yielded, application could read only %d of the %d it wanted", where, p.nm, len(p.gotM), p.readM))
 		}
+		if p.yielders > 1 {
+			// several goroutines yield at once: the mock hands out offsets and
+			// enqueues under one lock, so what the reader sees carries consecutive
+			// offsets in delivery order, each yielded message once, and every
+			// yielder's messages in that yielder's order.
+			idx := map[*sarama.ConsumerMessage]int{}
+			for i, m := range p.msgs {
+				idx[m] = i
+			}
+			last := map[int]int{}
+			seen := map[*sarama.ConsumerMessage]bool{}
+			var maxOff int64 = -1
+			for i, m := range p.gotM {
+				j, ok := idx[m]
+				if !ok || seen[m] {
+					r.viol("consumer-order", "concurrent-yield:alien-or-duplicate", fmt.Sprintf("%s: %d-th message read (%q) was not yielded or was already read", where, i, mkValue(m)))
+					break
+				}
+				seen[m] = true
+				y := j % p.yielders
+				if prev, ok := last[y]; ok && j < prev {
+					r.viol("consumer-order", "concurrent-yield:yielder-order", fmt.Sprintf("%s: yielder %d's message %d read after its message %d", where, y, j, prev))
+				}
+				last[y] = j
+				if m.Topic != p.topic || m.Partition != p.partition {
+					r.viol("consumer-order", "message-topic-partition", fmt.Sprintf("%s: message %d carries %s/%d", where, i, m.Topic, m.Partition))
+				}
+				if i > 0 && m.Offset != p.gotM[i-1].Offset+1 {
+					r.viol("offsets", "consumer:concurrent-yield-not-consecutive", fmt.Sprintf("%s: with %d goroutines yielding, the %d-th message read has offset %d after %d", where, p.yielders, i, m.Offset, p.gotM[i-1].Offset))
+				}
+				r.count("concurrent_yield_messages_checked", 1)
+			}
+			for _, m := range p.msgs {
+				if m.Offset > maxOff {
+					maxOff = m.Offset
+				}
+			}
+			r.count("hwm_checks", 1)
+			if len(p.msgs) > 0 && (p.hwmEnd != maxOff+1 || !p.hwmMapOK || p.hwmMap != maxOff+1) {
+				r.viol("consumer-hwm", "concurrent-yield", fmt.Sprintf("%s: highest offset handed out %d, HighWaterMarkOffset() = %d, HighWaterMarks() has %d (present=%v)", where, maxOff, p.hwmEnd, p.hwmMap, p.hwmMapOK))
+			}
+		}
 		for i, m := range p.gotM {
+			if p.yielders > 1 {
+				break
+			}
 			if m != p.msgs[i] {
 				r.viol("consumer-order", "messages-out-of-order", fmt.Sprintf("%s: %d-th message read is not the %d-th yielded (value %q)", where, i, i, mkValue(m)))
 				break
